@@ -16,10 +16,6 @@ def SubId.inDomain : SubId → Prop
   | .num n => n < 18446744073709551616
   | .str _ => True
 
-theorem encodeNat_head (n : Nat) : ∃ d rest, encodeNat n = (48 + d) :: rest ∧ d < 10 := by
-  obtain ⟨d, rest, h1, h2, _⟩ := natDigits_head (n + 1) n [] (by omega)
-  exact ⟨d, rest, h1, h2⟩
-
 theorem decodeU64_encodeString (s : Text) : decodeU64 (encodeString s) = none := by
   unfold decodeU64 decodeNat encodeString
   cases h : encodeStrBody s ++ [34] with
